@@ -11,6 +11,7 @@ On break: harness `oracle` evaluates the property itself on the real cache (grou
 harness) and enumerates all interleavings of 2 writers x 1 invalidator (x flusher).
 """
 import os
+import re
 import types
 
 THEOREMS = ["IstioModel.C06.Theorems"]
@@ -80,6 +81,35 @@ def oracle(ctx, stream, case_lines, rep):
     return None
 
 
+def race(ctx, secs):
+    """Stress run (goroutine races cannot be scheduled deterministically): the REAL ProxyUpdate in 8 goroutines races
+    with the REAL config-change pipeline (store update -> debounce -> Push: initPushContext, StartPush) on a
+    FakeDiscoveryServer with 8 connected ADS clients. Two passive probes (a wrapper around s.Cache that timestamps
+    Clear/ClearAll, a wrapper around the CDS generator that records the request it is given and compares its answer
+    with an uncached twin) count (a) push requests whose context was already replaced by a Clear that ended before
+    their Start, (b) stale entries stored in the real CDS cache by such requests, (c) CDS answers served from the cache
+    that were derived from an older DestinationRule than the request's own context holds. All three must be 0."""
+    rc, out = ctx.harness("race", "f8", secs, 8, timeout=900)
+    m = re.search(r"proxyupdate_calls=(\d+) clears=(\d+) .*incoherent_pairs=(\d+) \(from ProxyUpdate only: (\d+)\)", out)
+    st = re.search(r"token == its Start\): (\d+)", out)
+    sv = re.search(r"request's own context holds: (\d+)", out)
+    if rc != 0 or not (m and st and sv):
+        ctx.tie_broken("race-run:f8", out)
+        return
+    calls, clears, inc, stored, served = int(m.group(1)), int(m.group(2)), int(m.group(3)), int(st.group(1)), int(sv.group(1))
+    ctx.count("race.f8.proxyupdate_calls", calls)
+    ctx.count("race.f8.pushes", clears)
+    ctx.count("race.f8.incoherent_pairs", inc)
+    ctx.count("race.f8.stale_entries_stored", stored)
+    ctx.count("race.f8.stale_answers_served", served)
+    ctx.note_case("race f8 %d %d" % (calls // 100000, clears // 1000), True)
+    if inc or stored or served:
+        ctx.violation("race:f8-incoherent-writer",
+                      "a real cache writer paired an already replaced push context with a later start time under concurrency "
+                      "(%d requests, %d stale entries stored, %d stale CDS answers served)" % (inc, stored, served),
+                      {"stream": "race", "ops": ["race f8 %d 8" % secs], "output": out[-3000:]}, True)
+
+
 def run(ctx):
     ctx.run_pair = types.MethodType(_run_pair, ctx)
     ctx.rule = ("cache: cases = random op sequences (5-300 ops: add/get/clear/clearall/flush/maxsize + malformed) on one XdsCacheImpl, "
@@ -90,9 +120,9 @@ def run(ctx):
                 "non-trivial = at least one op")
     ctx.assumptions = [
         "writers are coherent (theorem never_stale): a writer's Start token is older than every already executed invalidation of a "
-        "dependency that its data does not reflect (StartPush stamps Start after the snapshot is published; processRequest reuses "
-        "the (LastPushContext, LastPushTime) pair); ProxyUpdate and connection initialisation read the snapshot and the clock "
-        "unsynchronised with initPushContext (observation F8, see notes/C06.md)",
+        "dependency that its data does not reflect (StartPush stamps Start after the snapshot is published; processRequest and the "
+        "debug config dump reuse the (LastPushContext, LastPushTime) pair; ProxyUpdate/AdsPushAll read the pair under "
+        "pushContextMu) - validated on the real code by stream writers (sequential) and the race stress (statistical), not proved",
         "the wall clock is strictly increasing between a writer's Start and any later Clear (Add rejects only token < cache token)",
         "ConfigKey.HashCode is injective on the configs in play; UnixNano of Start is non-negative",
         "KeyComplete (the cache key determines every input generation reads) is validated on the real key functions by the "
@@ -155,6 +185,8 @@ def run(ctx):
                               {"stream": "interleave", "ops": [lines[i]], "oracle_verdict": v}, True)
     else:
         ctx.tie_broken("oracle-run:interleave", log)
+    # goroutine races between the real writers and the real invalidation/publication (F8)
+    race(ctx, ctx.n(6, 45))
     if not proved and not ctx.violations:
         pass  # finish() reports the broken proof; the searches above found no failing input
 
@@ -174,6 +206,8 @@ def replay(ctx, path):
     p = os.path.join(ctx.work, "replay.ops")
     with open(p, "w") as f:
         f.write("\n".join(ops) + "\n")
+    if stream == "race":
+        return race(ctx, 30)
     if stream == "interleave":
         out = p + ".verdict"
         ctx.harness("oracle", "interleave", p, out)
@@ -209,10 +243,11 @@ MANIFEST = {
                    "clusterCache / route Cache / SecretResource keys (stream keys: real CDS/EDS/RDS/SDS generators, warm shared cache vs "
                    "from scratch, single-attribute proxy pairs on generated meshes) and writer coherence of processRequest / "
                    "pushConnection / debug config dump (stream writers, sequential schedules only, entry points through "
-                   "pilot/pkg/xds/zz_verif_c06.go). Assumed: strictly increasing wall clock, ConfigKey hash injective, no goroutine race "
-                   "between a writer's snapshot read and clock read and initPushContext's Clear/publish (ProxyUpdate: observation F8, "
-                   "not reproduced). Two defects found by these streams were fixed in /repo (SDS key vs mesh-default private key "
-                   "provider; debug config dump pairing LastPushContext with time.Now())."),
+                   "pilot/pkg/xds/zz_verif_c06.go). Goroutine races between the real writers and initPushContext are only explored by a stress "
+                   "run with passive probes (statistical). Assumed: strictly increasing wall clock, ConfigKey hash injective. Three "
+                   "defects found by these streams were fixed in /repo (SDS key vs mesh-default private key provider; debug config "
+                   "dump pairing LastPushContext with time.Now(); F8: ProxyUpdate/AdsPushAll pairing the global context with a clock "
+                   "read unsynchronised with cache invalidation + publication)."),
     "technique": "Lean 4 theorems (induction over arbitrary op sequences) over an exact model of the cache state machine + differential correspondence with the real Go cache + property oracle with exhaustive small-interleaving enumeration + differential validation of the proof's hypotheses on the real generators",
     "design_ref": "DESIGN.md section 5 C06",
 }
